@@ -26,7 +26,7 @@ EXPLANATION = (
     "decided), strict monotonicity of PELT's backtrack (follows from the start set)."
 )
 # obligations added during the build phase (seeding rounds, twins, mutation analysis)
-ADDED_IN_BUILD = " Also: the bindings of the length limits and driver arguments (C02.g, C03.i lengths, C07.e, C08.d, C09.f) and C17's position-order / per-group / no-merging obligations are shared: the limits the detections must respect are the configured ones only if they reach the driver."
+ADDED_IN_BUILD = " Also: the bindings of the length limits and driver arguments (C02.g, C03.i lengths, C07.e, C08.d, C09.f) and C17's position-order / per-group / no-merging obligations are shared: the limits the detections must respect are the configured ones only if they reach the driver. threshold-nonnegative (F-28): MovingWindow's default threshold is a maximum with a non-negative constant; its tuned twin is the known finding F-29."
 EXPLANATION = EXPLANATION + ADDED_IN_BUILD
 
 ASSUMPTIONS = [
